@@ -85,6 +85,11 @@ func oracleC07(res *Result, c *Case) {
 				if n.Op == "mark" && markEquivRef(markOf(hidden), markOf(h)) {
 					continue
 				}
+				if before == "false" && after == "true" && markEquivRef(markOf(e), markOf(h)) {
+					// the new outer layer itself (its visible text and type chain) is equivalent to
+					// that hidden layer: the match does not come from the hidden payload
+					continue
+				}
 				if before != after {
 					res.fail(c, "C07.is_blind", fmt.Sprintf("%s: Is(result, hidden layer %T)=%s but Is(wrapped, it)=%s", n.Op, h, after, before), "C07:is:"+n.Op)
 				}
